@@ -165,6 +165,11 @@ func (u *Universe) IP6(m, idx int) netip.Addr {
 		return netip.MustParseAddr(fmt.Sprintf("2001:db8::%x:%x", m+1, idx-1))
 	case 4:
 		return netip.MustParseAddr("::")
+	case 6:
+		// an IPv4-mapped address in an IPv6 header: unusual, legal, and a different table key from
+		// the IPv4 address it embeds
+		a := AddN(u.Home.Addr(), 2+m%3).As4()
+		return netip.AddrFrom16([16]byte{10: 0xff, 11: 0xff, 12: a[0], 13: a[1], 14: a[2], 15: a[3]})
 	default:
 		return netip.MustParseAddr("ff02::1")
 	}
